@@ -51,6 +51,72 @@ func appendedElems(c *ssa.Call) (elems []ssa.Value, ok bool) {
 	return elems, len(elems) > 0
 }
 
+// sliceElems lists every value that can be an element of the local slice v (built from a slice literal and appends,
+// joined by phis). ok=false when the slice has any other origin.
+func sliceElems(v ssa.Value) (elems []ssa.Value, ok bool) {
+	seen := map[ssa.Value]bool{}
+	ok = true
+	var visit func(v ssa.Value)
+	visit = func(v ssa.Value) {
+		if seen[v] || !ok {
+			return
+		}
+		seen[v] = true
+		switch x := v.(type) {
+		case *ssa.Phi:
+			for _, e := range x.Edges {
+				visit(e)
+			}
+		case *ssa.Const:
+			if x.Value != nil {
+				ok = false
+			}
+		case *ssa.Call:
+			if b, isB := x.Call.Value.(*ssa.Builtin); isB && b.Name() == "append" {
+				visit(x.Call.Args[0])
+				es, okE := appendedElems(x)
+				if !okE {
+					ok = false
+					return
+				}
+				elems = append(elems, es...)
+				return
+			}
+			ok = false
+		case *ssa.Slice:
+			arr, isAlloc := x.X.(*ssa.Alloc)
+			if !isAlloc || x.Low != nil || x.High != nil {
+				ok = false
+				return
+			}
+			for _, r := range *arr.Referrers() {
+				switch y := r.(type) {
+				case *ssa.IndexAddr:
+					for _, rr := range *y.Referrers() {
+						if st, isSt := rr.(*ssa.Store); isSt && st.Addr == ssa.Value(y) {
+							elems = append(elems, st.Val)
+						} else {
+							ok = false
+						}
+					}
+				case *ssa.Slice:
+				default:
+					ok = false
+				}
+			}
+		case *ssa.MakeSlice:
+			// elements arrive through appends (len 0) — stores by index are not tracked
+			if c, isC := x.Len.(*ssa.Const); !isC || c.Int64() != 0 {
+				ok = false
+			}
+		default:
+			ok = false
+		}
+	}
+	visit(v)
+	return elems, ok
+}
+
 // litFields resolves a struct value built by a composite literal (`local T (complit)` with
 // one store per field, then loaded) to its field values. ok=false when v is not of that shape.
 func litFields(v ssa.Value) (map[string]ssa.Value, bool) {
